@@ -70,7 +70,9 @@ Fixpoint group_msgs (cur : list packet_in) (ps : list packet_in) : list (list pa
   match ps with
   | [] => match cur with [] => [] | _ => [rev cur] end
   | p :: r =>
-    if p_len p =? c_hdr_size then (match cur with [] => [] | _ => [rev cur] end) ++ [[p]] ++ group_msgs [] r
+    if p_len p =? c_hdr_size then
+      (* between messages it stands alone; INSIDE a message (packetisations with empty packets) it belongs to it *)
+      match cur with [] => [[p]] ++ group_msgs [] r | _ => group_msgs (p :: cur) r end
     else if p_eom p then [rev (p :: cur)] ++ group_msgs [] r
     else group_msgs (p :: cur) r
   end.
@@ -82,15 +84,22 @@ Definition merge_msg (g : list packet_in) : packet_in :=
   end.
 (* the implementation's per-packet event trees, regrouped per message (errors moved last) *)
 Definition ev_is_err_tree (t : tree) : bool := match t with TL (TI 7 :: _) => true | _ => false end.
+Definition ev_is_ho_tree (t : tree) : bool := match t with TL (TI 3 :: _) => true | _ => false end.
 Fixpoint regroup (outs : list tree) (groups : list (list packet_in)) : list (list tree) :=
   match groups with
   | [] => []
   | g :: r =>
     let n := length g in
     let mine := firstn n outs in
-    let evs := concat (map (fun o => t_list (t_nth 0 o)) mine) in
+    let evs0 := concat (map (fun o => t_list (t_nth 0 o)) mine) in
+    (* header-only packets inside a message: their markers are counted separately (ho_markers) *)
+    let evs := match g with [_] => evs0 | _ => filter (fun t => negb (ev_is_ho_tree t)) evs0 end in
     (filter (fun t => negb (ev_is_err_tree t)) evs ++ filter ev_is_err_tree evs) :: regroup (skipn n outs) r
   end.
+(* every header-only packet is reported by exactly one marker, nothing else is *)
+Definition ho_markers (outs : list tree) : nat :=
+  length (filter ev_is_ho_tree (concat (map (fun o => t_list (t_nth 0 o)) outs))).
+Definition ho_packets (ps : list packet_in) : nat := length (filter (fun p => p_len p =? c_hdr_size) ps).
 
 Definition spec_fragmentation (need nenv : nat) (ps0 : Z) (pkts : list packet_in) (o : tree) : bool :=
   let groups := group_msgs [] pkts in
@@ -100,6 +109,7 @@ Definition spec_fragmentation (need nenv : nat) (ps0 : Z) (pkts : list packet_in
     let want := map (fun x => map ev_tree (canon (fst x))) oneshot in
     let got := regroup (t_list o) groups in
     (length want =? length got)%nat &&
+    (ho_markers (t_list o) =? ho_packets pkts)%nat &&
     forallb (fun wg => tree_eqb (TL (fst wg)) (TL (snd wg))) (combine want got).
 
 (* ---- consumer level (fn 12) *)
